@@ -285,6 +285,44 @@ def pwl_case(item, ctx=None):
         break
     if msgs:
       break
+  # multi-unit: a unit that misses a bound / clamp next to a feasible unit must still be rejected
+  if not msgs:
+    layer2 = tfl.layers.PWLCalibration(input_keypoints=kp, units=2, monotonicity=mono, output_min=lo,
+                                       output_max=hi, clamp_min=item["cmin"], clamp_max=item["cmax"])
+    layer2.build((None, 1))
+    def slacks(w):
+      y = np.cumsum(w)
+      sl = {}
+      if mono:
+        sl["mono"] = np.diff(y) * mono
+      if lo is not None:
+        sl["lo"] = np.array([y.min() - lo])
+      if hi is not None:
+        sl["hi"] = np.array([hi - y.max()])
+      if item["cmin"]:
+        sl["cmin"] = np.array([-abs(y.min() - lo)]) if abs(y.min() - lo) > 0 else np.array([1.0])
+      if item["cmax"]:
+        sl["cmax"] = np.array([-abs(y.max() - hi)]) if abs(y.max() - hi) > 0 else np.array([1.0])
+      return sl
+    cols = [W[:, c] for c in range(W.shape[1])]
+    feas = [w for w in cols if slacks(w) and verdict(slacks(w), 1e-6) == "must-pass"][:3]
+    offs = [w for w in cols if slacks(w) and verdict(slacks(w), 1e-6) == "must-raise"]
+    for wf in feas:
+      for wo in offs:
+        for order in (0, 1):
+          K = np.stack([wf, wo] if order == 0 else [wo, wf], axis=1)
+          layer2.kernel.assign(K.astype(np.float32))
+          r, et = raises(lambda: layer2.assert_constraints(eps=1e-6))
+          total += 1
+          if not r:
+            bad = min(slacks(wo), key=lambda k: np.min(slacks(wo)[k]))
+            msgs.append(("accepts-violation-multiunit-" + bad, dict(item=item, kernel=K.tolist(), eps=1e-6),
+                         "2-unit PWL kernel accepted although unit %d violates %s: %s" % (1 - order if order == 0 else 0, bad, K.T.tolist())))
+            break
+        if msgs:
+          break
+      if msgs:
+        break
   if ctx is not None:
     ctx.add(evaluations=total, nontrivial=nontriv, traces=total)
     ctx.tab("other_cfgs", "pwl")
